@@ -124,7 +124,7 @@ class Prop:
     pid = 'C20'
     props_file = 'Props/C20.v'
     required_theorems = ['fib_replay_eq_ecmp_of_best', 'vrf_fib_replay_eq_ecmp_of_best_outside_known', 'vrf_fib_replay_eq_ecmp_of_best_refuted', 'nht_refcount_eq_paths', 'kernel_watched_count_is_replay', 'fib_replay_eq_ecmp_of_best_legacy_refuted', 'vrf_fib_replay_eq_ecmp_of_best_legacy_refuted',
-                         'unreachable_nexthop_excluded']
+                         'unreachable_nexthop_excluded', 'insert_race_is_sequential', 'unreachable_nexthop_excluded_early_read_refuted']
     correspondence_name = ('Model/Fib.v svc_run vs kernel/src/lib.rs run_service_loop (harness/hx-kernel, real rtnetlink socket); Model/Fib.v step vs daemon/src/table_manager.rs TableManager (insert_route, remove_route, drop_families, '
                            'unregister_peer, drop_stale_families, mark_llgr_stale, drop_llgr_stale_families, update_nexthop_validity, '
                            'soft_reset_in, insert_route under a prefix limit, start_deferral_families, end_deferral_families) with a capturing kernel::KernelHandle (harness/daemon/table_manager_hx.rs verif_fib_cases)')
@@ -146,7 +146,7 @@ class Prop:
         'C20: hash-map iteration order (destinations, VRFs, shards) is not modelled; requests are compared per key (prefix / address) in order',
     ]
     assumptions = [
-        'operations are sequential (the property quantifies over histories); insert_route reading nexthop_invalid before taking the shard lock is a schedule-dependent window not explored',
+        'operations are sequential (the property quantifies over histories); the one concurrent schedule explored is insert_route parked before its shard lock while another thread applies reachability reports (classes insert_race:*, finding C20-4)',
         'the kernel handle is installed before the history starts; restarting-speaker deferral of a family starts while the family holds no route (it is started at boot, event/mod.rs); the prefix-limit counter is an input of each insert (its bookkeeping is C15)',
         'peer-level operations name every family of the session (IPv4 unicast and VPNv4), as the GR glue does (C10)',
         'VRFs with a kernel table have distinct table ids and distinct VPN prefixes have distinct VRF-local prefixes (one RD)',
@@ -156,11 +156,20 @@ class Prop:
     def case_to_val(self, c):
         if c.get('kind') == 'ref':
             return c['reqs']
+        if c.get('kind') == 'race':
+            pre, (_, ins, mids) = c['ops'][:-1], c['ops'][-1]
+            return [cfg_to_val(c['cfg']), c['shards'], [op_to_val(o) for o in pre], op_to_val(ins), [op_to_val(m) for m in mids]]
         return [cfg_to_val(c['cfg']), c['shards'], [op_to_val(o) for o in c['ops']]]
 
     def case_to_coq(self, c):
         if c.get('kind') == 'ref':
             return 'run_ref %s' % clist(['(%s %s)' % ('Reg' if r[0] == 1 else 'Unreg', cN(r[1])) for r in c['reqs']])
+        if c.get('kind') == 'race':
+            pre, (_, ins, mids) = c['ops'][:-1], c['ops'][-1]
+            _, peer, sess, p, pid, nh, tok = ins
+            return 'run_race %s %s %s %s %s (%s, %s) %s %s %s %s' % (
+                os.environ.get('VERIF_C20_EARLY_READ', 'false'), cfg_to_coq(c['cfg']), clist([op_to_coq(o) for o in pre]),
+                cN(peer), cN(sess), cN(p[0]), cN(p[1]), cN(pid), nh_coq(nh), cN(tok), clist([op_to_coq(m) for m in mids]))
         return 'run_case %s %s %s' % (os.environ.get('VERIF_C20_VARIANT', 'Fixed'), cfg_to_coq(c['cfg']),
                                       clist([op_to_coq(o) for o in c['ops']]))
 
@@ -176,6 +185,9 @@ class Prop:
             o = list(o)
             if o[0] in ('ins', 'rem', 'insl'):
                 o[3] = tuple(o[3])
+            if o[0] == 'race':
+                i = list(o[1]); i[3] = tuple(i[3])
+                o = ['race', tuple(i), [tuple(m) for m in o[2]]]
             ops.append(tuple(o))
         c['ops'] = ops
         return c
@@ -390,8 +402,28 @@ class Prop:
             add('defer:all_families:k%d' % f, [('sdef', 0), ('sdef', 1), ('sdef', 3), ('sdef', 4), ins(1, P, 1, 10), ins(2, O, 2, 10), ed, ('edef', O[0])])
         return out
 
+    def race_cases(self):
+        """X: insert_route reaching its shard lock after reachability reports issued by another thread
+        have been applied: report kinds x next-hop forms x what the table held before"""
+        E = self.ECFG
+        out = []
+        P = (0, 1)
+        forms = (('v4', [0, 1], 1), ('v6', [1, 101], 101), ('ll', [2, 101, 1], 101))
+        for fname, form, a in forms:
+            other = 2 if a == 1 else 102
+            pres = (('empty', []), ('other_path_same_nh', [('ins', 2, 0, P, 0, form, 10)]),
+                    ('already_unreachable', [('nhv', a, False)]), ('replaces_own_path', [('ins', 1, 0, P, 0, [0, 3], 10)]))
+            midss = (('none', []), ('down', [('nhv', a, False)]), ('up', [('nhv', a, True)]), ('down_up', [('nhv', a, False), ('nhv', a, True)]),
+                     ('up_down', [('nhv', a, True), ('nhv', a, False)]), ('other_down', [('nhv', other, False)]))
+            for pname, pre in pres:
+                for mname, mids in midss:
+                    out.append(dict(kind='race', cfg=E, shards=1 if mname != 'down' else 2,
+                                    ops=list(pre) + [('race', ('ins', 1, 0, P, 0, form, 10), list(mids))],
+                                    cls='insert_race:%s:%s:%s' % (fname, pname, mname)))
+        return out
+
     def gen_cases(self, rng, tier):
-        cases = self.enum_cases()
+        cases = self.enum_cases() + self.race_cases()
         # K: every request sequence of length <= 4 over register/unregister of two addresses
         import itertools
         for d in (1, 2, 3, 4):
@@ -434,7 +466,8 @@ class Prop:
 
     # ---- running
     def run_impl(self, cases, tier):
-        hist = [k for k, c in enumerate(cases) if c.get('kind') != 'ref']
+        hist = [k for k, c in enumerate(cases) if c.get('kind') not in ('ref', 'race')]
+        races = [k for k, c in enumerate(cases) if c.get('kind') == 'race']
         refs = [k for k, c in enumerate(cases) if c.get('kind') == 'ref']
         out = [None] * len(cases)
         a, err = rustrun.daemon_test('C20', 'table_manager::verif_hx::verif_fib_cases', [self.case_to_val(cases[k]) for k in hist])
@@ -442,6 +475,12 @@ class Prop:
             return None, err
         for k, o in zip(hist, a):
             out[k] = o
+        if races:
+            r, err = rustrun.daemon_test('C20r', 'table_manager::verif_hx::verif_fib_race_cases', [self.case_to_val(cases[k]) for k in races])
+            if r is None:
+                return None, err
+            for k, o in zip(races, r):
+                out[k] = o
         if refs:
             b, err = rustrun.crate_bin('C20k', 'hx-kernel', '', [self.case_to_val(cases[k]) for k in refs])
             if b is None:
@@ -508,6 +547,12 @@ class Prop:
         fam_of = lambda key: key[1][0] if key[0] is None else key[1][0] - 1
         prev_view = []
         for k, (o, (reqs, view)) in enumerate(zip(c['ops'], obs)):
+            if o[0] == 'race':
+                # an insert that reached its shard lock after the reports [o[2]] were applied completely:
+                # judged as the history ... reports, insert
+                for m in o[2]:
+                    (unreach.discard if m[2] else unreach.add)(m[1])
+                o = o[1]
             if o[0] == 'nhv':
                 (unreach.discard if o[2] else unreach.add)(o[1])
             if o[0] in ('ins', 'insl') and o[3][0] in (1, 4):
